@@ -148,4 +148,278 @@ theorem truncate_ok (C : Crypto) (bs : Array Bytes) (t : Tree) (f : File) (fork 
     simp only [Tree.truncate, hcomm, h1, hroots', hbl]
   exact ⟨_, e, rfl, rfl, by rw [← hbl]; exact refRoots_sum C bs, rfl, rfl, rfl, rfl, rfl⟩
 
+/-! ### replaying one entry -/
+
+/-- what the replay maintains: `Rep` without the parts that live outside (secret, data store) -/
+structure RInv (C : Crypto) (t : Tree) (b : Bitfield) (h : Header) (f : File) (a : Abs) : Prop where
+  tree : RootsOK C a.blocks t.changeset
+  nodes : NodesOK C a.blocks t f
+  mapwf : MapWF t.unflushed
+  bits : ∀ i, b.get i = a.held i
+  heldLt : ∀ i, a.held i = true → i < a.blocks.size
+  contig : FirstMissing b h.contiguous
+
+/-- what one logged entry is, relative to the abstract log before and after it -/
+inductive EntryStep (C : Crypto) : Abs → Entry → Abs → Prop
+  | append (a : Abs) (batch : List Bytes) (nodes : List Node) (sig : Bytes) (hne : batch ≠ []) (hsig : sig.length = 64)
+      (sound : ∀ n ∈ nodes, ∃ d o, n = nodeAt C (a.blocks ++ batch.toArray) d o ∧ (o + 1) * 2 ^ d ≤ a.blocks.size + batch.length)
+      (compl : ∀ d o, a.blocks.size < (o + 1) * 2 ^ d → (o + 1) * 2 ^ d ≤ a.blocks.size + batch.length →
+        nodeAt C (a.blocks ++ batch.toArray) d o ∈ nodes) :
+      EntryStep C a { treeNodes := nodes, treeUpgrade := some ⟨0, a.blocks.size, a.blocks.size + batch.length, sig⟩,
+                      bitfield := some ⟨false, a.blocks.size, batch.length⟩ } (a.step (.append batch)).1
+  | clear (a : Abs) (s e : Nat) (hse : s < e) :
+      EntryStep C a { bitfield := some ⟨true, s, e - s⟩ } (a.step (.clear s e)).1
+
+theorem foldl_addNode (nodes : List Node) (t : Tree) :
+    nodes.foldl Tree.addNode t = { t with unflushed := insertAll t.unflushed nodes } := by
+  induction nodes generalizing t with
+  | nil => rfl
+  | cons n ns ih => simp only [List.foldl_cons, ih, Tree.addNode, insertAll]
+
+theorem replayEntry_ok (C : Crypto) (hC : HashWF C) (d : Disk) (ol : Oplog.State) (h : Header) (t : Tree) (b : Bitfield)
+    (a a' : Abs) (e : Entry) (hinv : RInv C t b h d.tree a) (hstep : EntryStep C a e a') (hsmall : Small a') :
+    ∃ h' t' b', Core.replayEntry C d (ol, h, t, b) e = .ok (ol, h', t', b') ∧ RInv C t' b' h' d.tree a'
+      ∧ h'.secret = h.secret ∧ h'.publicKey = h.publicKey := by
+  cases hstep with
+  | clear s e hse =>
+    have hge : ¬ s ≥ e := by omega
+    have habs : (a.step (.clear s e)).1 = { a with held := fun i => a.held i && !(decide (s ≤ i) && decide (i < e)) } := by
+      simp only [Abs.step, hge, ite_false]
+    rw [habs]
+    refine ⟨updateContiguous h (b.setRange s (e - s) false) ⟨true, s, e - s⟩, t, b.setRange s (e - s) false, ?_, ?_, ?_, ?_⟩
+    · simp [Core.replayEntry, Tree.addNode]
+    · refine ⟨hinv.tree, hinv.nodes, hinv.mapwf, ?_, ?_, ?_⟩
+      · intro i
+        rw [Bitfield.get_setRange, hinv.bits]
+        by_cases hin : s ≤ i ∧ i < s + (e - s)
+        · have : s ≤ i ∧ i < e := by omega
+          simp [hin, this.1, this.2]
+        · by_cases h1 : s ≤ i
+          · have : ¬ i < e := by omega
+            simp [hin, h1, this]
+            intro _; omega
+          · simp [hin, h1]
+      · intro i hi
+        simp only [Bool.and_eq_true] at hi
+        exact hinv.heldLt i hi.1
+      · have := updateContiguous_spec h b ⟨true, s, e - s⟩ hinv.contig (by simp; omega)
+        simpa using this
+    · simp only [updateContiguous]; split <;> (try split) <;> rfl
+    · simp only [updateContiguous]; split <;> (try split) <;> rfl
+  | append batch nodes sig hne hsig sound compl =>
+    have hemp : batch.isEmpty = false := by cases batch with | nil => exact absurd rfl hne | cons _ _ => rfl
+    have hk : 0 < batch.length := List.length_pos_iff.mpr hne
+    generalize hheld' : (fun i => a.held i || (decide (a.blocks.size ≤ i) && decide (i < a.blocks.size + batch.length))) = held'
+    have habs : (a.step (.append batch)).1 = { blocks := a.blocks ++ batch.toArray, held := held' } := by
+      simp only [Abs.step, hemp, ← hheld']; rfl
+    rw [habs] at hsmall ⊢
+    generalize hbs' : a.blocks ++ batch.toArray = bs' at hsmall sound compl
+    have hsize' : bs'.size = a.blocks.size + batch.length := by rw [← hbs']; simp
+    -- the tree with the entry's nodes added
+    generalize ht1 : nodes.foldl Tree.addNode t = t1
+    have ht1' : t1 = { t with unflushed := insertAll t.unflushed nodes } := by rw [← ht1]; exact foldl_addNode nodes t
+    have hN1 : NodesOK C bs' t1 d.tree := by
+      rw [← hbs']
+      exact nodesOK_insert_gen C hC a.blocks batch t t1 d.tree nodes (by rw [ht1']) (by rw [hbs']; exact sound)
+        (by rw [hbs']; exact compl) hinv.nodes
+    have hroots1 : AllRef C bs' t1.roots := by
+      have hr : t1.roots = refRoots C a.blocks := by rw [ht1']; exact roots_of_rootsOK C a.blocks _ hinv.tree
+      rw [hr]
+      intro n hn
+      simp only [refRoots, List.mem_map] at hn
+      obtain ⟨p, hp, rfl⟩ := hn
+      refine ⟨p.1, p.2, ?_⟩
+      rw [← hbs', nodeAt_append C a.blocks batch p.1 p.2 (rootsStack_bound _ p (List.mem_reverse.mp hp))]
+    obtain ⟨cs, htr, r1, r2, r3, r4, r5, r6, r7, r8⟩ := truncate_ok C bs' t1 d.tree 0 hN1 hsmall.1 hroots1
+    rw [hsize'] at htr
+    have hwf1 : MapWF t1.unflushed := by
+      rw [ht1']
+      apply mapWF_insertAll _ _ hinv.mapwf
+      intro x hx
+      obtain ⟨dd, o, rfl, hb⟩ := sound x hx
+      refine ⟨nodeAt_hash_len C hC _ _ _, ?_⟩
+      have h1 := nodeAt_length_le C bs' dd o
+      have h2 := psum_mono bs' (show (o + 1) * 2 ^ dd ≤ bs'.size by rw [hsize']; exact hb)
+      have h3 := psum_total bs'
+      have := hsmall.2
+      simp only at this
+      omega
+    -- the bitfield and the hint
+    generalize hb' : b.setRange a.blocks.size batch.length true = b'
+    have hbits' : ∀ i, b'.get i = held' i := by
+      intro i
+      rw [← hb', ← hheld', Bitfield.get_setRange, hinv.bits]
+      by_cases hin : a.blocks.size ≤ i ∧ i < a.blocks.size + batch.length
+      · simp [hin]
+      · by_cases h1 : a.blocks.size ≤ i
+        · have : ¬ i < a.blocks.size + batch.length := by omega
+          simp [hin, h1, this]
+        · simp [hin, h1]
+    generalize hh1 : updateContiguous h b' ⟨false, a.blocks.size, batch.length⟩ = h1
+    have hcontig1 : FirstMissing b' h1.contiguous := by
+      have := updateContiguous_spec h b ⟨false, a.blocks.size, batch.length⟩ hinv.contig hk
+      simp only [Bool.not_false] at this
+      rw [hb', hh1] at this
+      exact this
+    have hh1s : h1.secret = h.secret ∧ h1.publicKey = h.publicKey := by
+      rw [← hh1]; simp only [updateContiguous]; split <;> (try split) <;> exact ⟨rfl, rfl⟩
+    -- the commit
+    generalize hcs2 : ({ cs with ancestors := a.blocks.size, hash := some (Tree.rootsHash C cs.roots), signature := some sig } : Changeset) = cs2
+    have hlen1 : t1.length = a.blocks.size := by rw [ht1']; exact hinv.tree.length
+    have hcommit : t1.commit cs2 = .ok { t1 with roots := refRoots C bs', length := bs'.size, byteLength := totalBytes bs', fork := 0, signature := some sig } := by
+      have c1 : t1.commitable cs2 = true := by
+        rw [← hcs2]; simp [Tree.commitable, r4, r5, r6]
+      have c2 : cs2.upgraded = true := by rw [← hcs2]; exact r4
+      have c3 : ¬ (cs2.ancestors < cs2.origLength) := by rw [← hcs2]; simp [r5, hlen1]
+      have c4 : cs2.nodes = [] := by rw [← hcs2]; simp [Changeset.nodes, r7]
+      simp only [Tree.commit, c1, c2, c3, c4, Bool.not_true, Bool.false_eq_true, ite_false, Bool.true_and, decide_false,
+        List.foldl_nil, ite_true]
+      rw [← hcs2]
+      simp [r1, r2, r3, r8]
+    generalize het : (entryOf cs2 none h1).2 = h2
+    have hh2 : h2.contiguous = h1.contiguous ∧ h2.secret = h1.secret ∧ h2.publicKey = h1.publicKey := by
+      rw [← het]; simp only [entryOf]; split <;> exact ⟨rfl, rfl, rfl⟩
+    generalize ht2 : ({ t1 with roots := refRoots C bs', length := bs'.size, byteLength := totalBytes bs', fork := 0, signature := some sig } : Tree) = t2 at hcommit
+    have t2a : t2.roots = refRoots C bs' ∧ t2.length = bs'.size ∧ t2.byteLength = totalBytes bs' ∧ t2.unflushed = t1.unflushed := by
+      rw [← ht2]; exact ⟨rfl, rfl, rfl, rfl⟩
+    refine ⟨h2, t2, b', ?_, ?_, by rw [hh2.2.1, hh1s.1], by rw [hh2.2.2, hh1s.2]⟩
+    · simp only [Core.replayEntry, ht1, hb', hh1, Bool.not_false, htr, hsig, ne_eq, not_true_eq_false, ite_false, hcs2,
+        hcommit, het]
+    · refine ⟨⟨t2a.2.1, ?_, t2a.2.2.1⟩, ?_, ?_, hbits', ?_, ?_⟩
+      · simp [Tree.changeset, t2a.1, refRoots, List.map_reverse]
+      · intro dd o hb
+        rw [← hN1 dd o hb]
+        exact node?_congr t1 t2 d.tree _ (by rw [t2a.2.2.2])
+      · rw [t2a.2.2.2]; exact hwf1
+      · intro i hi
+        rw [← hheld'] at hi
+        simp only [Bool.or_eq_true, Bool.and_eq_true, decide_eq_true_eq] at hi
+        rcases hi with hi | hi
+        · have := hinv.heldLt i hi; rw [hsize']; omega
+        · rw [hsize']; omega
+      · rw [hh2.1]; exact hcontig1
+
+/-! ### replaying the whole log -/
+
+/-- the entries logged since the last flush lead from the log at that flush to the current one -/
+inductive Trace (C : Crypto) : Abs → List Entry → Abs → Prop
+  | nil (a : Abs) : Trace C a [] a
+  | cons (a a1 a2 : Abs) (e : Entry) (es : List Entry) : EntryStep C a e a1 → Small a1 → Trace C a1 es a2 → Trace C a (e :: es) a2
+
+theorem replay_ok (C : Crypto) (hC : HashWF C) (d : Disk) (ol : Oplog.State) (es : List Entry) :
+    ∀ (h : Header) (t : Tree) (b : Bitfield) (a a' : Abs), RInv C t b h d.tree a → Trace C a es a' →
+      ∃ h' t' b', Core.openCore.replay C d es (ol, h, t, b) = .ok (ol, h', t', b') ∧ RInv C t' b' h' d.tree a'
+        ∧ h'.secret = h.secret ∧ h'.publicKey = h.publicKey := by
+  induction es with
+  | nil =>
+    intro h t b a a' hinv htr
+    cases htr
+    exact ⟨h, t, b, rfl, hinv, rfl, rfl⟩
+  | cons e es ih =>
+    intro h t b a a' hinv htr
+    cases htr with
+    | cons _ a1 _ _ _ hstep hsm hrest =>
+      obtain ⟨h1, t1, b1, r1, r2, r3, r4⟩ := replayEntry_ok C hC d ol h t b a a1 e hinv hstep hsm
+      obtain ⟨h2, t2, b2, s1, s2, s3, s4⟩ := ih h1 t1 b1 a1 a' r2 hrest
+      refine ⟨h2, t2, b2, ?_, s2, by rw [s3, r3], by rw [s4, r4]⟩
+      simp only [Core.openCore.replay, r1, s1]
+
+/-! ### opening the tree from the flushed store -/
+
+theorem node?_empty (f : File) (i : Nat) (n : Node) (h : ({} : Tree).node? f i = some n) :
+    ∃ bs, f.read (i * Spec.nodeSize) Spec.nodeSize = some bs ∧ nodeOfBytes i bs = n := by
+  simp only [Tree.node?, Std.HashMap.getElem?_empty] at h
+  cases hr : f.read (i * Spec.nodeSize) Spec.nodeSize with
+  | none => simp [hr] at h
+  | some bs =>
+    simp only [hr] at h
+    split at h
+    · cases h
+    · exact ⟨bs, rfl, Option.some.inj h⟩
+
+theorem load_ok (C : Crypto) (bs : Array Bytes) (f : File) (hN : NodesOK C bs {} f) :
+    ∀ (l : List (Nat × Nat)), (∀ p ∈ l, (p.2 + 1) * 2 ^ p.1 ≤ bs.size) →
+      Tree.openTree.load f (l.map fun p => Flat.index p.1 p.2) = .ok (l.map fun p => nodeAt C bs p.1 p.2) := by
+  intro l
+  induction l with
+  | nil => intro _; rfl
+  | cons p ps ih =>
+    intro hb
+    obtain ⟨bytes, hr, hn⟩ := node?_empty f _ _ (hN p.1 p.2 (hb p (by simp)))
+    simp only [List.map_cons, Tree.openTree.load, hr, ih (fun q hq => hb q (by simp [hq])), hn]
+
+theorem cover_fold (C : Crypto) (bs : Array Bytes) (l : List (Nat × Nat)) (a b : Nat) (h : Cover l a b) :
+    (l.map fun p => nodeAt C bs p.1 p.2).foldl (fun l n => l + 2 * ((n.index - l) + 1)) (2 * a) = 2 * b := by
+  induction h with
+  | nil a => rfl
+  | cons d o a b rest ha _ ih =>
+    simp only [List.map_cons, List.foldl_cons]
+    have hp := pow_pos' d
+    have hidx : (nodeAt C bs d o).index = o * (2 * 2 ^ d) + (2 ^ d - 1) := index_eq d o
+    have e5 : o * (2 * 2 ^ d) = 2 * (o * 2 ^ d) := by ring
+    have e6 : (o + 1) * 2 ^ d = o * 2 ^ d + 2 ^ d := by ring
+    have : 2 * a + 2 * ((nodeAt C bs d o).index - 2 * a + 1) = 2 * ((o + 1) * 2 ^ d) := by
+      rw [hidx, ha, e5, e6]; omega
+    rw [this]; exact ih
+
+theorem openTree_ok (C : Crypto) (bs : Array Bytes) (ht : HeaderTree) (f : File) (hN : NodesOK C bs {} f)
+    (hlen : ht.length = bs.size) (hs : bs.size < 2 ^ 64) (hsig : ht.signature = [] ∨ ht.signature.length = 64) :
+    ∃ t, Tree.openTree ht f = .ok t ∧ RootsOK C bs t.changeset ∧ t.unflushed = {} := by
+  have hidx : fullRoots (ht.length * 2) = (rootsStack bs.size).reverse.map fun p => Flat.index p.1 p.2 := by
+    rw [hlen, Nat.mul_comm]; exact fullRoots_eq bs.size hs
+  have hload := load_ok C bs f hN (rootsStack bs.size).reverse
+    (fun p hp => rootsStack_bound _ p (List.mem_reverse.mp hp))
+  have hfold := cover_fold C bs _ 0 bs.size (cover_roots bs.size)
+  simp only [Nat.mul_zero] at hfold
+  have hsigc : ¬ (!ht.signature.isEmpty && decide (ht.signature.length ≠ 64)) = true := by
+    rcases hsig with h | h
+    · simp [h]
+    · simp [h]
+  have hopen : Tree.openTree ht f = .ok { roots := refRoots C bs, length := (2 * bs.size) / 2, byteLength := ((refRoots C bs).map (·.length)).sum, fork := ht.fork, signature := if ht.signature.isEmpty then none else some ht.signature } := by
+    simp only [Tree.openTree, hidx, hload]
+    simp only [hsigc, Bool.false_eq_true, ite_false, hfold, refRoots]
+  refine ⟨_, hopen, ⟨?_, ?_, ?_⟩, rfl⟩
+  · simp only [Tree.changeset]; omega
+  · simp [Tree.changeset, refRoots, List.map_reverse]
+  · exact refRoots_sum C bs
+
+/-! ### `Hypercore::new` on existing storage -/
+
+/-- If the oplog opens to the header of the last flush and the entries logged since, the tree and
+    bitfield stores hold the state of that flush, the entries lead from that state to the log `a`, and
+    the data store holds `a`'s held blocks, then opening yields a core that represents `a`. -/
+theorem reopen_refines (C : Crypto) (hC : HashWF C) (d : Disk) (ost : Oplog.State) (hf : Header) (es : List Entry)
+    (a0 a : Abs) (sk : Bytes)
+    (hlog : Oplog.openLog none d.oplog.toList = .ok ⟨ost, hf, [], es⟩)
+    (hlen : hf.tree.length = a0.blocks.size) (hsig : hf.tree.signature = [] ∨ hf.tree.signature.length = 64)
+    (hsec : hf.secret = some sk)
+    (hN : NodesOK C a0.blocks {} d.tree)
+    (hbits : ∀ i, (Bitfield.ofFile d.bitfield).get i = a0.held i) (hlt : ∀ i, a0.held i = true → i < a0.blocks.size)
+    (hcontig : FirstMissing (Bitfield.ofFile d.bitfield) hf.contiguous)
+    (hsmall0 : Small a0) (htrace : Trace C a0 es a)
+    (hdata : ∀ i, a.held i = true → ∀ k, k < sz a.blocks i →
+      psum a.blocks i + k < d.data.size ∧ d.data.byte (psum a.blocks i + k) = (a.blocks.getD i []).getD k 0)
+    (hsmall : Small a) :
+    ∃ c', Core.openCore C none d = .ok (c', []) ∧ Rep C c' d a := by
+  obtain ⟨t0, ht0, hroots0, hunf0⟩ := openTree_ok C a0.blocks hf.tree d.tree hN hlen hsmall0.1 hsig
+  have hN0 : NodesOK C a0.blocks t0 d.tree := by
+    intro dd o hb
+    rw [← hN dd o hb]
+    exact node?_congr {} t0 d.tree _ (by rw [hunf0])
+  have hinv0 : RInv C t0 (Bitfield.ofFile d.bitfield) hf d.tree a0 :=
+    ⟨hroots0, hN0, by rw [hunf0]; intro k n hk; simp at hk, hbits, hlt, hcontig⟩
+  obtain ⟨h', t', b', hrep, hinv', hs', _⟩ := replay_ok C hC d ost es hf t0 (Bitfield.ofFile d.bitfield) a0 a hinv0 htrace
+  refine ⟨{ publicKey := h'.publicKey, secret := h'.secret, oplog := ost, header := h', tree := t', bitfield := b', skipFlush := 0 }, ?_, ?_⟩
+  · simp only [Core.openCore, hlog, applyAll_nil, ht0, hrep]
+  · exact {
+      writer := by simp [hs', hsec]
+      tree := hinv'.tree
+      nodes := hinv'.nodes
+      mapwf := hinv'.mapwf
+      bits := hinv'.bits
+      heldLt := hinv'.heldLt
+      contig := hinv'.contig
+      data := hdata
+      small := hsmall }
+
 end HC.Reopen
